@@ -24,7 +24,7 @@ import (
 	"verifsim/probereg"
 )
 
-const query = `query($reps: [_Any!]!) { _entities(representations: $reps) { __typename ... on Acct { id label } ... on Prod { sku upc pack title } ... on Rev { seq body author { id label } } ... on Ship { code weight } ... on Bulk { id note } ... on BulkReq { id size } } }`
+const query = `query($reps: [_Any!]!) { _entities(representations: $reps) { __typename ... on Acct { id label } ... on Prod { sku upc pack title } ... on Rev { seq body author { id label } } ... on Ship { code weight } ... on Bulk { id note } ... on BulkReq { id size } ... on Crate { id holder { id } holder_id } } }`
 
 // rep is one representation with what the oracle expects of it.
 type rep struct {
@@ -40,7 +40,10 @@ func str(s string) *string { return &s }
 
 func mkRep(t *core.Tape, i int) rep {
 	id := fmt.Sprintf("k%d", t.Choose(4, "keyval")) // few distinct keys: duplicates are frequent
-	switch t.Choose(7, "type") {
+	switch t.Choose(8, "type") {
+	case 7:
+		return rep{Type: "Crate", JSON: map[string]any{"__typename": "Crate", "id": id, "holder": map[string]any{"id": "h-" + id}, "holder_id": "hs-" + id}, HookKey: "Crate|" + id,
+			Expect: fmt.Sprintf(`{"__typename":"Crate","id":%q,"holder":{"id":%q},"holder_id":%q}`, id, "h-"+id, "hs-"+id)}
 	case 0:
 		return rep{Type: "Acct", JSON: map[string]any{"__typename": "Acct", "id": id}, HookKey: "Acct|" + id,
 			Expect: fmt.Sprintf(`{"__typename":"Acct","id":%q,"label":%q}`, id, "acct:"+id)}
@@ -81,7 +84,7 @@ func mkRep(t *core.Tape, i int) rep {
 
 func keyField(typ string) string {
 	switch typ {
-	case "Acct", "Bulk", "BulkReq":
+	case "Acct", "Bulk", "BulkReq", "Crate":
 		return "id"
 	case "Ship":
 		return "code"
